@@ -682,7 +682,15 @@ pub fn partition(rng: &mut Rng, r: &Recv, items: &[Item], pieces: usize) -> Vec<
                 gid: 0,
             });
         }
-        let name = rng.pick(&r.attr_names).clone();
+        let mut name = rng.pick(&r.attr_names).clone();
+        if rng.chance(1, 8) {
+            // the last segment spelled as a raw identifier: the same path
+            if let Some(i) = name.rfind("::") {
+                name = format!("{}::r#{}", &name[..i], &name[i + 2..]);
+            } else {
+                name = format!("r#{name}");
+            }
+        }
         attrs.push(Attr {
             name,
             kind: AttrKind::List(g, if rng.chance(1, 8) { rng.range(1, 2) as u8 } else { 0 }),
